@@ -3,10 +3,14 @@
 package mpx
 
 import (
+	"net"
 	"runtime"
 	"sync"
 	"sync/atomic"
 	"time"
+
+	"github.com/basecomplextech/baselibrary/logging"
+	"github.com/basecomplextech/baselibrary/status"
 )
 
 // Verification hooks (build tag `verif`): seeded yields at the points where the library's
@@ -69,3 +73,17 @@ func verifYield(point string) {
 
 // VerifReconnectTimeout exposes reconnectTimeout for the correspondence check of the back-off.
 func VerifReconnectTimeout(attempt int) time.Duration { return reconnectTimeout(attempt) }
+
+// VerifConnOver runs a client connection over a caller-supplied transport, exactly as Connect does
+// after dialling (same constructor, same handler for incoming channels, same run loop), so that
+// fault-injecting transports (one direction failing, short writes) can be put under a real
+// connection. The returned channel receives the status of the connection's run loop.
+func VerifConnOver(nc net.Conn, client bool, logger logging.Logger, opts Options) (Conn, <-chan status.Status) {
+	handler := HandleFunc(func(_ Context, ch Channel) status.Status {
+		return status.ExternalError("client connection does not support incoming channels")
+	})
+	c := newConn(nc, client, noopConnDelegate{}, handler, logger, opts.clean())
+	done := make(chan status.Status, 1)
+	go func() { done <- c.run() }()
+	return c, done
+}
